@@ -113,8 +113,7 @@ package calendar
 //@ # (the month pillar is a valid stem-branch pair: C05)
 //@ func (daYun *DaYun) GetGanZhi() string [C12]
 //@   requires daYun.index <= 60 && modf(daYun.lunar.monthGanIndexExact, 2) == modf(daYun.lunar.monthZhiIndexExact, 2)
-//@   ensures implies(daYun.index < 1, result == "")
-//@   ensures implies(daYun.index >= 1, result == LunarUtil.JIA_ZI[modf(cyc(daYun.lunar.monthGanIndexExact, daYun.lunar.monthZhiIndexExact)+ite(daYun.yun.forward, daYun.index, 0-daYun.index), 60)])
+//@   ensures result == ite(daYun.index < 1, "", LunarUtil.JIA_ZI[modf(cyc(daYun.lunar.monthGanIndexExact, daYun.lunar.monthZhiIndexExact)+ite(daYun.yun.forward, daYun.index, 0-daYun.index), 60)])
 //@   use jiaZiOfPair(daYun.lunar.monthGanIndexExact, daYun.lunar.monthZhiIndexExact)
 //@   cut offset#1: offset == cyc(daYun.lunar.monthGanIndexExact, daYun.lunar.monthZhiIndexExact)
 //@   cut offset#4: offset == modf(cyc(daYun.lunar.monthGanIndexExact, daYun.lunar.monthZhiIndexExact)+ite(daYun.yun.forward, daYun.index, 0-daYun.index), 60)
